@@ -1,0 +1,76 @@
+//! Verification driver (only with `--cfg metrics_verif`): synchronous access to the writer and flush path.
+#![allow(missing_docs)]
+use std::sync::Arc;
+
+use metrics::{Key, Label};
+
+use crate::{
+    builder::AggregationMode,
+    recorder::DogStatsDRecorder,
+    state::{FlushState, State, StateConfiguration},
+    telemetry::TelemetryUpdate,
+    writer::PayloadWriter,
+};
+
+pub struct Writer(PayloadWriter);
+
+impl Writer {
+    pub fn new(max_payload_len: usize, with_length_prefix: bool) -> Self {
+        Writer(PayloadWriter::new(max_payload_len, with_length_prefix))
+    }
+    pub fn counter(&mut self, key: &Key, v: u64, ts: Option<u64>, prefix: Option<&str>, gl: &[Label]) -> (u64, u64) {
+        let r = self.0.write_counter(key, v, ts, prefix, gl);
+        (r.payloads_written(), r.points_dropped())
+    }
+    pub fn gauge(&mut self, key: &Key, v: f64, ts: Option<u64>, prefix: Option<&str>, gl: &[Label]) -> (u64, u64) {
+        let r = self.0.write_gauge(key, v, ts, prefix, gl);
+        (r.payloads_written(), r.points_dropped())
+    }
+    pub fn histogram(&mut self, key: &Key, vs: Vec<f64>, rate: Option<f64>, prefix: Option<&str>, gl: &[Label], dist: bool) -> (u64, u64) {
+        let r = if dist { self.0.write_distribution(key, vs, rate, prefix, gl) } else { self.0.write_histogram(key, vs, rate, prefix, gl) };
+        (r.payloads_written(), r.points_dropped())
+    }
+    pub fn drain(&mut self) -> Vec<Vec<u8>> {
+        let mut out = Vec::new();
+        let mut p = self.0.payloads();
+        while let Some(b) = p.next_payload() {
+            out.push(b.to_vec());
+        }
+        out
+    }
+}
+
+pub struct Driver {
+    state: Arc<State>,
+    flush_state: FlushState,
+    writer: PayloadWriter,
+    telemetry: TelemetryUpdate,
+}
+
+impl Driver {
+    #[allow(clippy::too_many_arguments)]
+    pub fn new(aggressive: bool, sampling: bool, reservoir: usize, as_dist: bool, labels: Vec<Label>, prefix: Option<String>, max_len: usize, length_prefix: bool) -> (Driver, DogStatsDRecorder) {
+        let cfg = StateConfiguration {
+            agg_mode: if aggressive { AggregationMode::Aggressive } else { AggregationMode::Conservative },
+            telemetry: false,
+            histogram_sampling: sampling,
+            histogram_reservoir_size: reservoir,
+            histograms_as_distributions: as_dist,
+            global_labels: labels,
+            global_prefix: prefix,
+        };
+        let state = Arc::new(State::new(cfg));
+        let rec = DogStatsDRecorder::new(Arc::clone(&state));
+        (Driver { state, flush_state: FlushState::default(), writer: PayloadWriter::new(max_len, length_prefix), telemetry: TelemetryUpdate::default() }, rec)
+    }
+    pub fn flush_once(&mut self) -> Vec<Vec<u8>> {
+        self.telemetry.clear();
+        self.state.flush(&mut self.flush_state, &mut self.writer, &mut self.telemetry);
+        let mut out = Vec::new();
+        let mut p = self.writer.payloads();
+        while let Some(b) = p.next_payload() {
+            out.push(b.to_vec());
+        }
+        out
+    }
+}
